@@ -441,7 +441,7 @@ pub fn phases(quick: bool) -> Result<Vec<Phase>, String> {
         )],
     ));
     // 2c. klippa subsetter (observations in C02, judged by C20)
-    let (ksize, kbytes) = if quick { (16 << 10, 32) } else { (64 << 10, 128) };
+    let (ksize, kbytes) = if quick { (8 << 10, 32) } else { (64 << 10, 128) };
     let kl = gen_klippa_cases(ksize, kbytes, !quick);
     out.push(vec_phase(
         "klippa",
